@@ -93,7 +93,7 @@ def nshards(tier):
 def shard(tier, seed, idx) -> ShardResult:
     res = ShardResult()
     comp.run(PROP, st_case(), check_case, lambda f: "fastest_is_not_fewest_links" in f, res,
-             cases=300 if tier == "quick" else 12000, seed=seed * 1000 + idx, kind="component")
+             cases=300 if tier == "quick" else 6000, seed=seed * 1000 + idx, kind="component")
     return res
 
 
